@@ -58,4 +58,17 @@ CHECKS = {
         'window, and an amount sweep up to N=5000 at 12 references; 49 English expressions per reference and the working phrases of 7 '
         'other cultures.',
    note=BASE_NOTE + 'Month/year shifts depend on the datedelta stand-in.'),
+ 'C09': dict(engine='E1-choice-tree', design_ref='7/C09',
+   technique='exhaustive enumeration of stated days x reference days (histories) against min/max over matching dates',
+   text='All 366 month-days x 4 layouts and 7 weekday names; the reference date ranges over the stated day and its neighbours in each '
+        'of 8 years at 3 times of day, year and leap-day boundaries, and every day of a leap and a non-leap year for the special days '
+        '(thorough: every day of 2015-2022 x 2 times for every stated day). Exactly two candidates [latest before R, earliest on or '
+        'after R] with an open-year/open-week TIMEX are required.',
+   note=BASE_NOTE + 'English only.'),
+ 'C10': dict(engine='E1-choice-tree', design_ref='7/C10',
+   technique='exhaustive enumeration of N x units and of ordered endpoint pairs; arithmetic invariant on every (start,end,duration) triple',
+   text='N x 7 units x 3 carriers for durations; every ordered pair of 12 dates (2 layouts, 3 connectors), 10 clock times and 6 datetimes '
+        'for ranges; plus the triple-consistency invariant evaluated on every entity the date-time model emits for every '
+        'Python-supported Specs input of every culture.',
+   note=BASE_NOTE),
 }
